@@ -5,7 +5,7 @@ import json
 import common
 import gllib as gl
 
-WEIGHTS = [(1, 1), (1, 2), (3, 1), (2, 1)]
+WEIGHTS = [(1, 1), (1, 2), (3, 1), (2, 1), (1, 3), (1, 4), (2, 5), (3, 5), (5, 2)]
 
 
 def stream(chk):
@@ -29,6 +29,17 @@ def stream(chk):
         if 1 not in pat:
             pat[rng.randrange(k)] = 1
         out.append((t, pat, rng.choice(WEIGHTS), rng.choice([1, 2, 3, 99]), rng.random() < 0.5, rng.choice([0, -1]), 'random'))
+    # strongly asymmetric weights with a limit that cannot bind: a state may be dropped at a node only when it is dominated for BOTH
+    # states of the parent, which only shows when gain and loss weight differ by more than one unit
+    for _ in range(chk.n(2500, 40000)):
+        k = rng.choice([5, 6, 7, 8, 9, 10])
+        t = gl.rand_nested(rng, k)
+        pool = rng.choice([[1, 0], [1, 0, 0], [1, 1, 0], [1, 0, -1]])
+        pat = [rng.choice(pool) for _ in range(k)]
+        if 1 not in pat:
+            pat[rng.randrange(k)] = 1
+        out.append((t, pat, rng.choice([(1, 3), (1, 4), (1, 5), (2, 5), (3, 5), (5, 1), (4, 1), (5, 2), (3, 1)]), 99, rng.random() < 0.5,
+                    rng.choice([0, -1]), 'asymmetric-weights'))
     # clades whose leaves are all missing (the undetermined state must stay undetermined)
     for _ in range(chk.n(400, 10000)):
         k = rng.choice([4, 5, 6, 7, 8, 9])
@@ -110,7 +121,9 @@ def run_get_gls(chk, want):
         except Exception as ex:  # noqa
             reals.append(('ERR', type(ex).__name__, str(ex)[:80]))
     res = {}
-    for fixed in (0, 1):
+    # C07 ties the scenario itself (membership in the model's candidate set, shipped or repaired order of the case split);
+    # C08 ties only what it speaks about - the weight - to the member of the family its theorem covers (repaired order)
+    for fixed in ((0, 1) if want == 'replay' else (1,)):
         lines, nms = [], []
         for tree, taxa, paps, w, gpl, push, md, sname, t in prepared:
             names, line = model_line(tree, taxa, paps, w, gpl, push, md, fixed)
@@ -127,7 +140,10 @@ def run_get_gls(chk, want):
                 continue
             if m != list(r):
                 exact_bad.append(i)
-            if set(r) not in [set(c) for c in cands]:
+            if want == 'replay':
+                if set(r) not in [set(c) for c in cands]:
+                    member_bad.append(i)
+            elif gl.weight(r, prepared[i][3]) != gl.weight(m, prepared[i][3]) or (len(m) == 1) != (len(r) == 1):
                 member_bad.append(i)
         res[fixed] = (exact_bad, member_bad)
         if not member_bad:
@@ -161,8 +177,9 @@ def run_get_gls(chk, want):
             sub = tree.lowestCommonAncestor([x for x in taxa if pat[x] == 1]) if paps.count(1) > 1 else None
             if sub is not None and all(pat[x] == 1 for x in sub.getTipNames()) and list(r) != [(sub.Name, 1)]:
                 fails.append((i, 'all leaves under the common ancestor are present but the scenario is %r' % (r,), None))
-    exact_bad, member_bad = res[ident] if ident is not None else res[0]
-    chk.obligation('correspondence:get_gls scenario is one of the model\'s minimum-weight root candidates (membership; family member allMissingFirst=%r)' % ident,
+    exact_bad, member_bad = res[ident] if ident is not None else res[min(res)]
+    chk.obligation(('correspondence:get_gls scenario is one of the model\'s minimum-weight root candidates (membership; family member allMissingFirst=%r)' % ident)
+                   if want == 'replay' else 'correspondence:weight of the get_gls scenario == weight of the model\'s scenario (family member allMissingFirst=True)',
                    'correspondence', ident is not None, 'cases=%d membership-mismatches=%d exact-order-mismatches=%d' % (len(cases), len(member_bad), len(exact_bad)))
     if exact_bad and ident is not None:
         chk.notes.append('candidate order differs from the model in %d cases (absorbed by the membership relation)' % len(exact_bad))
@@ -186,9 +203,10 @@ def run_get_gls(chk, want):
                       {'kind': 'get_gls', 'tree': gl.newick(t) + ';', 'taxa': taxa, 'paps': paps, 'weights': w, 'gpl': gpl,
                        'push_gains': push, 'missing_data': md, 'real': reals[i], 'why': e}, key=key)
     if ident is None and not fails:
-        i = res[0][1][0]
+        i = res[min(res)][1][0]
         tree, taxa, paps, w, gpl, push, md, sname, t = prepared[i]
-        chk.violation('get_gls returns a scenario outside the model\'s candidate set; oracle found no failing input',
+        chk.violation(('get_gls returns a scenario outside the model\'s candidate set' if want == 'replay' else
+                       'the weight of the get_gls scenario differs from the model\'s') + '; oracle found no failing input',
                       {'kind': 'get_gls', 'tree': gl.newick(t) + ';', 'taxa': taxa, 'paps': paps, 'weights': w, 'gpl': gpl,
                        'push_gains': push, 'missing_data': md, 'real': reals[i], 'broken': 'correspondence:get_gls membership'},
                       found_input=False)
